@@ -27,6 +27,11 @@ def Num.neg (a : Num) : Num := ⟨-a.re, -a.im⟩
 def Num.mul (a b : Num) : Num := ⟨a.re * b.re - a.im * b.im, a.re * b.im + a.im * b.re⟩
 def Num.conj (a : Num) : Num := ⟨a.re, -a.im⟩
 def Num.zero : Num := ⟨0, 0⟩
+def Num.isZero (a : Num) : Bool := a.re == 0 && a.im == 0
+/-- reciprocal of a non-zero Gaussian rational -/
+def Num.inv (a : Num) : Num := let n := a.re * a.re + a.im * a.im; ⟨a.re / n, -a.im / n⟩
+def Num.div (a b : Num) : Num := a.mul b.inv
+def Num.ofRat (r : Rat) : Num := ⟨r, 0⟩
 
 structure Mat where
   nrows : Nat
@@ -38,7 +43,7 @@ deriving DecidableEq, Repr
 def Mat.lgt (A : Mat) : Nat := A.nrows * A.ncols
 def Mat.WF (A : Mat) : Prop := A.buf.length = A.nrows * A.ncols
 
-inductive Err where | index | type | value | notImpl
+inductive Err where | index | type | value | notImpl | zeroDiv | arith
 deriving DecidableEq, Repr
 
 /-- `OUT_RNG(i, dim)` -/
@@ -283,6 +288,153 @@ def reshape (A : Mat) (m n : Int) : Except Err Mat :=
   if m < 0 || n < 0 then .error .type
   else if m.toNat * n.toNat != A.lgt then .error .type
   else .ok { A with nrows := m.toNat, ncols := n.toNat }
+
+/-! ### division, remainder, power, absolute value (`matrix_div_generic`, `matrix_rem_generic`, `matrix_pow`, `matrix_abs`) -/
+
+/-- `x / y` (true division).  The divisor must be a number or a 1×1 matrix (anything else is `NotImplemented` on both sides, a
+TypeError for the caller); the result is at least of type 'd'; a number divided by a 1×1 matrix gives a 1×1 matrix. -/
+def divop (x y : Opd) : Except Err Mat :=
+  if !y.isScalar then .error .type else
+  let tc := TC.ofId (max 1 (max x.id y.id))
+  if y.scalarVal.isZero then .error .zeroDiv else
+  match x with
+  | .num _ v => match y with
+    | .mat _ => .ok ⟨1, 1, tc, [v.div y.scalarVal]⟩
+    | .num _ _ => .error .notImpl
+  | .mat A => .ok ⟨A.nrows, A.ncols, tc, A.buf.map fun a => a.div y.scalarVal⟩
+
+/-- `A /= y`: allowed only when the type does not change (so never for an 'i' matrix) -/
+def idivop (A : Mat) (y : Opd) : Except Err Mat :=
+  if !y.isScalar then .error .type else
+  if max 1 (max A.tc.id y.id) != A.tc.id then .error .type else
+  if y.scalarVal.isZero then .error .zeroDiv else
+  .ok { A with buf := A.buf.map fun a => a.div y.scalarVal }
+
+/-- C remainder of integers (`%` truncates towards zero) -/
+def iremNum (a n : Num) : Num := ⟨(Int.tmod a.re.num n.re.num : Int), 0⟩
+/-- `a - floor(a/n)*n` -/
+def dremNum (a n : Num) : Num := ⟨a.re - ((a.re / n.re).floor : Int) * n.re, 0⟩
+
+/-- `x % y`: scalar divisor, no complex operands; integers use the C remainder, doubles `a - floor(a/n)*n` -/
+def remop (x y : Opd) : Except Err Mat :=
+  if !y.isScalar then .error .type else
+  let id := max x.id y.id
+  if id == 2 then .error .notImpl else
+  if y.scalarVal.isZero then .error .zeroDiv else
+  let f := if id == 0 then iremNum else dremNum
+  match x with
+  | .num _ v => match y with
+    | .mat _ => .ok ⟨1, 1, TC.ofId id, [f v y.scalarVal]⟩
+    | .num _ _ => .error .notImpl
+  | .mat A => .ok ⟨A.nrows, A.ncols, TC.ofId id, A.buf.map fun a => f a y.scalarVal⟩
+
+/-- `A %= y` -/
+def iremop (A : Mat) (y : Opd) : Except Err Mat :=
+  if !y.isScalar then .error .type else
+  let id := max A.tc.id y.id
+  if id == 2 then .error .notImpl else
+  if id != A.tc.id then .error .type else
+  if y.scalarVal.isZero then .error .zeroDiv else
+  let f := if id == 0 then iremNum else dremNum
+  .ok { A with buf := A.buf.map fun a => f a y.scalarVal }
+
+def ratPow (x : Rat) (e : Int) : Rat := if e ≥ 0 then x ^ e.toNat else (1 / x) ^ (-e).toNat
+
+/-- `A ** e` for a real matrix and an integral exponent given as a Python int (`eid = 0`) or float (`eid = 1`): the result is a 'd'
+matrix; `0 ** negative` is a domain error (ValueError) -/
+def powop (A : Mat) (e : Int) : Except Err Mat :=
+  if A.tc = .z then .error .notImpl else
+  if e < 0 && A.buf.any (fun a => a.re == 0) then .error .value else
+  .ok { A with tc := .d, buf := A.buf.map fun a => ⟨ratPow a.re e, 0⟩ }
+
+/-- exact rational square root, when there is one -/
+def ratSqrt? (r : Rat) : Option Rat :=
+  if r < 0 then none else
+  let n := r.num.toNat; let d := r.den
+  if Nat.sqrt n * Nat.sqrt n == n && Nat.sqrt d * Nat.sqrt d == d then some ((Nat.sqrt n : Rat) / (Nat.sqrt d : Rat)) else none
+
+def ratAbs (r : Rat) : Rat := if r < 0 then -r else r
+
+/-- `abs(A)`: same type for 'i' and 'd', the modulus as a 'd' matrix for 'z'; `none` when a modulus is irrational (outside the model) -/
+def absop (A : Mat) : Option Mat :=
+  if A.tc = .z then
+    (A.buf.mapM fun a => ratSqrt? (a.re * a.re + a.im * a.im)).map fun l => { A with tc := .d, buf := l.map Num.ofRat }
+  else some { A with buf := A.buf.map fun a => ⟨ratAbs a.re, 0⟩ }
+
+/-- `bool(A)` -/
+def nonzero (A : Mat) : Bool := A.buf.any fun a => !a.isZero
+
+/-- the builtins `max(A)` / `min(A)` (iteration over the entries in storage order) -/
+def bextreme (isMax : Bool) (A : Mat) : Res :=
+  match A.buf with
+  | [] => .err .value
+  | a :: rest =>
+    if A.tc = .z && !rest.isEmpty then .err .type
+    else .num A.tc (rest.foldl (fun m b => if (if isMax then decide (b.re > m.re) else decide (b.re < m.re)) then b else m) a)
+
+/-- the builtin `sum(A)`: starts from the Python int 0 -/
+def bsum (A : Mat) : Res :=
+  if A.buf.isEmpty then .num .i Num.zero else .num A.tc (A.buf.foldl Num.add Num.zero)
+
+/-- `v in A` -/
+def contains (A : Mat) (v : Num) : Bool := A.buf.any fun a => a == v
+
+/-! ### elementwise functions of two arguments (`base.emul`, `ediv`, `emax`, `emin`, called by `cvxopt.mul`, `div`, `max`, `min`) -/
+
+inductive ElemOp where | mul | div | max | min
+deriving DecidableEq, Repr
+
+def elemFn (op : ElemOp) (a b : Num) : Num :=
+  match op with
+  | .mul => a.mul b
+  | .div => a.div b
+  | .max => if a.re ≥ b.re then a else b
+  | .min => if a.re ≤ b.re then a else b
+
+/-- a number, or a matrix with exactly one entry, is broadcast -/
+def elem (op : ElemOp) (x y : Opd) : Res :=
+  let id0 := max x.id y.id
+  if (op == .max || op == .min) && id0 == 2 then .err .type else
+  let id := if op == .div then max 1 id0 else id0
+  let tc := TC.ofId id
+  let bothPlain := !x.isMat && !y.isMat
+  if bothPlain then
+    if op == .div && y.scalarVal.isZero then .err .arith else .num tc (elemFn op x.scalarVal y.scalarVal)
+  else
+    match x, y with
+    | .mat A, .mat B =>
+      if !x.isScalar && !y.isScalar then
+        if A.nrows != B.nrows || A.ncols != B.ncols then .err .type
+        else if op == .div && B.buf.any Num.isZero then .err .arith
+        else .mat ⟨A.nrows, A.ncols, tc, List.zipWith (elemFn op) A.buf B.buf⟩
+      else if !x.isScalar then
+        if op == .div && y.scalarVal.isZero && A.lgt > 0 then .err .arith
+        else .mat ⟨A.nrows, A.ncols, tc, A.buf.map fun a => elemFn op a y.scalarVal⟩
+      else if !y.isScalar then
+        if op == .div && B.buf.any Num.isZero then .err .arith
+        else .mat ⟨B.nrows, B.ncols, tc, B.buf.map fun b => elemFn op x.scalarVal b⟩
+      else
+        if op == .div && y.scalarVal.isZero then .err .arith
+        else .mat ⟨1, 1, tc, [elemFn op x.scalarVal y.scalarVal]⟩
+    | .mat A, .num _ v =>
+      if op == .div && v.isZero && A.lgt > 0 then .err .arith
+      else .mat ⟨A.nrows, A.ncols, tc, A.buf.map fun a => elemFn op a v⟩
+    | .num _ v, .mat B =>
+      if op == .div && B.buf.any Num.isZero then .err .arith
+      else .mat ⟨B.nrows, B.ncols, tc, B.buf.map fun b => elemFn op v b⟩
+    | _, _ => .err .notImpl
+
+/-- `matrix([[col0], [col1], ...])`: a list of columns of equal length -/
+def fromCols (cols : List (List Num)) (ids : List Nat) (tc : Option TC) : Except Err Mat :=
+  let maxid := ids.foldl max 0
+  let t := match tc with | some t => t | none => TC.ofId maxid
+  if maxid > t.id then .error .type else
+  match cols with
+  | [] => .ok ⟨0, 1, t, []⟩
+  | c :: rest =>
+    if rest.any (fun r => r.length != c.length) then .error .type
+    else if c.length == 0 then .ok ⟨0, 0, t, []⟩          -- empty columns: the result of stacking nothing is 0×0
+    else .ok ⟨c.length, cols.length, t, cols.flatten⟩
 
 /-- `matrix(seq, (m, n), tc)` for a flat sequence of numbers with ids `ids` -/
 def fromSeq (vals : List Num) (ids : List Nat) (size : Option (Int × Int)) (tc : Option TC) : Except Err Mat :=
